@@ -548,6 +548,14 @@ impl OwnedLazyValue {
             JsonSlice::FastStr(f) => f.clone(),
         };
 
+        // the literals are always kept in parsed form (a raw value is a number, string or container)
+        match raw.as_bytes().first() {
+            Some(b't') => return true.into(),
+            Some(b'f') => return false.into(),
+            Some(b'n') => return ().into(),
+            _ => {}
+        }
+
         if status == HasEsc::None {
             Self(LazyPacked::NonEscStrRaw(raw))
         } else {
